@@ -20,7 +20,8 @@ FLOOR_CALLS = 1400
 SHARED = {
     "C01": [("C15", ("C15.S1", "C15.S3", "C15.S4", "C15.S5", "C15.S6"), None, "the polygon that must contain the point is produced through the inverse face projection"),
             ("C19", ("C19.A5",), None, "longitudes that differ by whole turns (and probes across the antimeridian) name the same point only if every wrap moves by the full period"),
-            ("C02", ("C02.R2",), None, "the lookup accepts an estimate through a5cell_contains_point; the polygon that has to contain the point is the one get_pentagon reports for that cell, at every resolution")],
+            ("C02", ("C02.R2",), None, "the lookup accepts an estimate through a5cell_contains_point; the polygon that has to contain the point is the one get_pentagon reports for that cell, at every resolution"),
+            ("C13", ("C13.X1",), None, "the lookup succeeds for every point only if the projection's triangle memo tables have a slot for every triangle of every face")],
     "C02": [("C01", ("C01.R1", "C01.R2", "C01.R3", "C01.R4", "C01.R5", "C01.R7", "C01.R8"), None, "a point inside a cell's reported polygon maps back to that cell only if the lookup returns a cell of the asked resolution accepted by the exact containment test evaluated at the query point itself"),
             ("C15", ("C15.S1", "C15.S3", "C15.S4", "C15.S5", "C15.S6"), None, "the reported centre and boundary come from the inverse face projection, the lookup from the forward one")],
     "C04": [("C15", ("C15.S1", "C15.S3", "C15.S4", "C15.S5", "C15.S6"), None, "cell areas are equal only if the boundary is unprojected with the matching spherical/squashed triangle and an accurate angle helper")],
@@ -33,12 +34,19 @@ SHARED = {
     "C11": [("C04", ("C04.R1",), None, "the ring has vertices*n points only if it is built from the length-exact split pentagon"),
             ("C19", ("C19.A5",), None, "the ring stays within a 180-degree window only if each unwrapping step is a whole turn")],
     "C17": [("C14", ("C14.O",), ("a5::core::hilbert::", "a5::core::tiling::"), "the position<->cell maps are total for depths 1..29 only if no index/overflow site in the curve and tiling code can fail")],
+    "C15": [("C13", ("C13.X1",), None, "forward and inverse answer for every face and triangle only if the triangle memo tables have a slot for each")],
     "C18": [("C19", ("C19.A3",), None, "the ring of faces sits at the documented 93-degree longitude offset only if that offset is applied, in degrees, with opposite signs on the way in and out")],
     "C20": [("C07", ("C07.T3", "C07.T4"), None, "descendants stay inside their ancestor's ID interval only if children are placed two bits per level below the parent's bits, contiguously"),
             ("C14", ("C14.C",), "canonical:cell_to_", "ancestors and descendants keep the layout only if every hierarchy result is a serialize() output (no hand-assembled IDs)")],
     "C07": [("C14", ("C14.C",), "canonical:cell_to_", "one consistent tree needs canonical IDs from both hierarchy functions")],
     "C05": [("C14", ("C14.C",), "canonical:", "every ID returned by any API call is in the canonical form only if it is a serialize() output, the world cell, or taken from a collection of such")],
 }
+
+
+# C13.X1: the memo tables of the projection have a slot for every (face, triangle, flags) key.  Computed next to the
+# memo rules of C13 because it needs their slot enumeration; a table one slot short is deterministic (C13 holds) but
+# makes the projection - and with it the lookup - fail for one triangle of one face.
+CROSS_ONLY = {"C13.X1"}
 
 
 class Ctx:
@@ -109,6 +117,8 @@ def main():
         tb = traceback.extract_tb(e.__traceback__)[-1]
         run.bad(prop + ".ENGINE", "analysis-error", "rule pack stopped at %s:%d with %s: %s - the code has a shape the rule does not recognise; undecided, fails closed" % (
             os.path.basename(tb.filename), tb.lineno, type(e).__name__, str(e)[:200]))
+    # instances a pack computes for the benefit of other properties only (they say nothing about the pack's own property)
+    run.instances = [i for i in run.instances if i.rule not in CROSS_ONLY]
     for pack, prefixes, keypart, why in SHARED.get(prop, ()):
         sub = Ctx()
         sub.tier, sub.work, sub.facts, sub.bad, sub.facts_release = ctx.tier, ctx.work, ctx.facts, ctx.bad, ctx.facts_release
@@ -139,7 +149,9 @@ def main():
         for a in sub.run.assumptions:
             if keypart and any(kp in a for kp in ((keypart,) if isinstance(keypart, str) else keypart)):
                 run.assume(a)
-        if n == 0:
+        if n == 0 and set(prefixes) <= CROSS_ONLY:
+            run.note("shared rules %s of the %s pack produced no instance on this tree (not judged)" % (",".join(prefixes), pack))
+        elif n == 0:
             run.bad(prop + ".SHARED", "shared:%s:%s" % (pack, ",".join(prefixes)), "the shared rules produced no instance (fails closed)")
         run.rule_text += " ; shared from %s: %s (%s)" % (pack, ", ".join(prefixes), why)
     rc = run.finish()
